@@ -168,6 +168,7 @@ type evNode struct {
 	isParked bool
 	parkCh   chan struct{}
 	unpark   bool // a held poll has been released and not yet served
+	ended    bool
 	rQueue   []string
 	rCur     string
 	rHead    bool // the current request's head read was served
@@ -285,6 +286,9 @@ func (n *evNode) matches(l *ethtypes.Log) bool {
 // ---- logging (always under n.mu)
 
 func (n *evNode) emit(ev string, a map[string]interface{}, s map[string]interface{}) {
+	if n.ended {
+		return // the scenario is over; what the watcher does while it is being torn down is not recorded
+	}
 	if a == nil {
 		a = map[string]interface{}{}
 	}
@@ -1095,6 +1099,7 @@ func evRunScenario(t *testing.T, tr *vhTrace, sc evScenario) {
 		r.line("End", nil, map[string]interface{}{"pending": keys})
 	}
 	n.mu.Lock()
+	n.drain()
 	if n.slow {
 		n.emit("Slow", nil, nil)
 	}
@@ -1105,6 +1110,7 @@ func evRunScenario(t *testing.T, tr *vhTrace, sc evScenario) {
 		n.isParked = false
 		close(n.parkCh)
 	}
+	n.ended = true
 	n.mu.Unlock()
 	cancel()
 }
